@@ -137,7 +137,7 @@ pub fn run_case(kind: &str, args: &[&str]) -> String {
                 let d = id.to_string();
                 let f: Option<u128> = d.parse::<TraceId>().ok().map(|x| x.0);
                 let js = serde_json::to_string(&id).unwrap();
-                let back: Option<u128> = serde_json::from_str::<TraceId>(&js).ok().map(|x| x.0);
+                let back: Option<u128> = de_all_routes::<TraceId>(&js).map(|x| x.0);
                 (d, f, js, back)
             }));
             match r {
@@ -152,7 +152,7 @@ pub fn run_case(kind: &str, args: &[&str]) -> String {
                 let d = id.to_string();
                 let f: Option<u64> = d.parse::<SpanId>().ok().map(|x| x.0);
                 let js = serde_json::to_string(&id).unwrap();
-                let back: Option<u64> = serde_json::from_str::<SpanId>(&js).ok().map(|x| x.0);
+                let back: Option<u64> = de_all_routes::<SpanId>(&js).map(|x| x.0);
                 (d, f, js, back)
             }));
             match r {
@@ -256,4 +256,21 @@ pub fn generate(seed: u64, n: usize, out: &mut dyn Write) {
         }
     }
     for (k, v) in stats { writeln!(out, "#stat {} {}", k, v).unwrap(); }
+}
+
+/// serde back through every kind of deserializer serde_json offers: borrowed text, a reader
+/// (owned strings), a `Value` tree, and text in which every character is a \u escape (so the
+/// string cannot be borrowed from the input).  All routes must succeed and agree.
+fn de_all_routes<T: serde::de::DeserializeOwned + PartialEq>(js: &str) -> Option<T> {
+    let a: T = serde_json::from_str(js).ok()?;
+    let b: T = serde_json::from_reader(js.as_bytes()).ok()?;
+    let v: serde_json::Value = serde_json::from_str(js).ok()?;
+    let c: T = serde_json::from_value(v).ok()?;
+    let inner = js.trim_matches('"');
+    let escaped: String = std::iter::once("\"".to_string())
+        .chain(inner.chars().map(|ch| format!("\\u{:04x}", ch as u32)))
+        .chain(std::iter::once("\"".to_string()))
+        .collect();
+    let d: T = serde_json::from_str(&escaped).ok()?;
+    if a == b && b == c && c == d { Some(a) } else { None }
 }
